@@ -86,7 +86,7 @@ def h_quadrature(B):
 
 def scenarios(tier, seed):
     quick = [("tridiag", {"n": 2}), ("quadrature", {})]
-    thorough = [("tridiag", {"n": 3})]
+    thorough = []          # dimension 3 does not finish within 40 minutes: not claimed
     return quick if tier == "quick" else quick + thorough
 
 
@@ -97,13 +97,13 @@ OPTS = {"quick": {"max_paths": 100, "budget_s": 600, "jobs": 4, "branch_timeout_
 META = {
     "level": "other",
     "explanation": "stochastic_logdet_from_lanczos with the 2x2 closed-form eigendecomposition: quadrature of x^m equals n (T^m)[0,0] for "
-                   "m = 0..3 (Gauss quadrature exact to degree 2n-1) for ALL positive definite tridiagonal T.  lanczos_tridiag traced for a symbolic symmetric 2x2 (thorough 3x3) matrix and start vector, order = dimension, "
+                   "m = 0..3 (Gauss quadrature exact to degree 2n-1) for ALL positive definite tridiagonal T.  lanczos_tridiag traced for a symbolic symmetric 2x2 matrix and start vector, order = dimension, "
                    "interpreted in fork mode (breakdown decisions are paths): T symmetric tridiagonal, first basis vector normalised, "
                    "T[0,0] the Rayleigh quotient; without breakdown Q orthonormal, T = Q A Q^T, trace and determinant of T equal those "
                    "of A (same spectrum).  The ELBO clauses of the property are NOT claimed.",
     "functions_encoded": ["nifty.re.num.lanczos.{lanczos_tridiag,_lanczos_tridiag,_dense_tridiag,stochastic_logdet_from_lanczos,_gauss_unit,"
                           "_quadrature_from_eigh,_apply_f_safely}"],
-    "bounds": {"dimension": "2 (3 thorough)", "order": "= dimension"},
+    "bounds": {"dimension": "2 (dimension 3 does not finish and is not claimed)", "order": "= dimension"},
     "stubs": ["jnp.linalg.eigh (LAPACK) = closed-form symmetric 2x2 eigendecomposition (ascending eigenvalues, orthonormal vectors)"],
     "outside": ["both estimate_evidence_lower_bound implementations (ARPACK eigsh, host code): the ELBO statements of the property are NOT covered",
                 "the Gauss-Radau variant with a prescribed node (_radau_unit) and the probe averaging of stochastic_lq_logdet", "order < dimension (extreme eigenvalues only approximately)", "round-off and loss of orthogonality"],
